@@ -135,7 +135,8 @@ class C04(Base):
     rule = ('as C03 with removals three times as frequent; every successful or unsuccessful remove is compared with the '
             'snapshot before it; non-trivial = distinct histories in which a remove returned true for a referenced element')
     gen_args = dict(weights=dict(remove=25, addref=30),
-                    extra_ops=dict(silentrefs=(3, lambda rng, pool, docs: silent_refs(rng, pool, docs))))
+                    extra_ops=dict(silentrefs=(3, lambda rng, pool, docs: silent_refs(rng, pool, docs)),
+                                   fanin=heapgen.EXTRA['fanin']))
 
     @staticmethod
     def nontrivial(ops):
